@@ -13,7 +13,7 @@ mkdir -p "$dest"
 for f in patch.diff demo.py meta.json; do
   [ "$(readlink -f "$src/$f")" = "$(readlink -f "$dest/$f")" ] || cp "$src/$f" "$dest/$f"
 done
-prop=$(/venv/bin/python -c "import json;print(json.load(open('$dest/meta.json'))['property'])")
+prop=$(/venv/bin/python -c "import json;d=json.load(open('$dest/meta.json'));print(d.get('check') or d['property'])")
 wt="/tmp/confirm_$id"
 git -C /repo worktree remove --force "$wt" >/dev/null 2>&1
 rm -rf "$wt"
